@@ -49,20 +49,49 @@ SHRINK = ['steps', 'ops']
 KINDS = ['file', 'file', 'file', 'demo:mapping:mapping', 'demo:file:file',
          'mapping', 'hex:file', 'hex:demo:mapping:mapping']
 CLASSES = ['Merge', 'Merge', 'Merge', 'Cell', 'Boom', 'Boom2', 'MergeNA',
-           'Flaky', 'Flaky']
+           'Flaky', 'Flaky', 'MergeND']
 
 
 class MergeNA(objs.Merge):
-    """A resolvable class with constructor arguments."""
+    """A resolvable class whose __new__ *requires* the constructor
+    argument its records carry."""
+
+    def __new__(cls, tag, *args):
+        inst = objs.Merge.__new__(cls)
+        inst._v_tag = tag
+        return inst
 
     def __getnewargs__(self):
-        return ()
+        return ('na',)
 
 
-objs.CLASSES['MergeNA'] = MergeNA
-objs.MergeNA = MergeNA
-MergeNA.__module__ = 'zsim.objs'
-MergeNA.__qualname__ = 'MergeNA'
+class MergeND(objs.Merge):
+    """A resolvable class with an optional constructor argument on which
+    its resolver depends (as a capped counter's does on its cap): the
+    resolver must run on an instance made with the record's arguments."""
+
+    def __new__(cls, tag=None, *args):
+        inst = objs.Merge.__new__(cls)
+        inst._v_tag = tag
+        return inst
+
+    def __getnewargs__(self):
+        return ('nd',)
+
+    def _p_resolveConflict(self, old, committed, new):
+        objs.RESOLVE_CALLS.append(('MergeND', old, committed, new))
+        out = objs.merge_states(old, committed, new)
+        if getattr(self, '_v_tag', None) != 'nd':
+            out['token'] = ['resolver ran on an instance made without '
+                            'the constructor arguments of the record']
+        return out
+
+
+for _c in (MergeNA, MergeND):
+    objs.CLASSES[_c.__name__] = _c
+    setattr(objs, _c.__name__, _c)
+    _c.__module__ = 'zsim.objs'
+    _c.__qualname__ = _c.__name__
 
 
 def gen_undo(r, tier):
@@ -309,7 +338,7 @@ def run_conn(case):
                         continue
                     cls = type(o).__name__
                     if not resolving or cls not in ('Merge', 'MergeNA',
-                                                    'Flaky'):
+                                                    'MergeND', 'Flaky'):
                         conflict_expected = True
                         continue
                     if cls == 'Flaky' and new_state.get('n', 0) % 2:
